@@ -22,12 +22,15 @@ def showCode (a : Acct) : String :=
   | some 0 => "-"
   | some id => s!"c{id}"
 def r (b : Bool) : String := if b then "R" else "0"
+/-- raw profile slot (0 = key absent, n+1 = present with value n) as the harness prints it -/
+def slot (p : Nat) : String := if p = 0 then "-" else toString (p - 1)
+def slot? (w : String) : Option Nat := if w == "-" then some 0 else w.toNat?.map (· + 1)
 
 def dumpAcct (i : Nat) (a : Acct) : String :=
   let p := s!"a{i}."
   let ac := joinWith "," ([1, 2].map fun k => match a.getAssetCode k with
     | none => "-"
-    | some as => s!"{as.supply};{as.p1};{as.p2}")
+    | some as => s!"{as.supply};{slot as.p1};{slot as.p2}")
   let ai := joinWith "," ([1, 2].map fun k => toString (a.getAssetId k))
   let eq := joinWith "," ([1, 2].map fun k => match a.getEquity k with
     | none => "-"
@@ -61,7 +64,7 @@ def parseWrite : List String → Option Write
   | ["aid", k, v] => do some (.assetId (← k.toNat?) (← v.toNat?))
   | ["eq", k, v] => do some (.equity (← k.toNat?) (some (← parseInt? v)))
   | ["eqnil", k] => do some (.equity (← k.toNat?) none)
-  | ["ac", k, s, p1] => do some (.assetCode (← k.toNat?) (some { supply := (← parseInt? s), p1 := (← p1.toNat?), p2 := 0 }))
+  | ["ac", k, s, p1] => do some (.assetCode (← k.toNat?) (some { supply := (← parseInt? s), p1 := (← p1.toNat?) + 1, p2 := 0 }))
   | ["acnil", k] => do some (.assetCode (← k.toNat?) none)
   | ["acs", c, k, v] => do some (.assetCodeState (← c.toNat?) (← k.toNat?) (← v.toNat?))
   | ["act", c, v] => do some (.assetCodeSupply (← c.toNat?) (← parseInt? v))
@@ -92,7 +95,7 @@ def stepInit (d : D) : List String → Option D
     let k ← k.toNat?; let v ← v.toNat?
     some (setInit d (← i.toNat?) fun a => { a with sRoot := true, storage := upd a.storage k v, com := { a.com with storage := upd a.com.storage k v } })
   | [i, "assetcode", k, s, p1, p2] => do
-    let k ← k.toNat?; let s ← parseInt? s; let p1 ← p1.toNat?; let p2 ← p2.toNat?
+    let k ← k.toNat?; let s ← parseInt? s; let p1 ← slot? p1; let p2 ← slot? p2
     some (setInit d (← i.toNat?) fun a => { a with acRoot := true, assetCode := upd a.assetCode k (some { supply := s, p1 := p1, p2 := p2 }), com := { a.com with assetCode := upd a.com.assetCode k (some { supply := s, p1 := p1, p2 := p2 }) } })
   | [i, "assetid", k, v] => do
     let k ← k.toNat?; let v ← v.toNat?
